@@ -10,6 +10,7 @@ import (
 	"os"
 	"path/filepath"
 	"reflect"
+	"sort"
 	"strings"
 	"sync"
 
@@ -148,10 +149,23 @@ func genC12(ctx *fw.Ctx) []fw.Case {
 	}
 	base := baseSources()
 	rng.Shuffle(len(base), func(i, j int) { base[i], base[j] = base[j], base[i] })
-	if k := ctx.Pick(24, 120); len(base) > k {
-		base = base[:k]
+	// the module-level atoms (use-list orders, comdats, aliases, ifuncs, attribute
+	// groups, unnamed globals: every kind of top-level entity the translator keeps
+	// an index or a work list for) are always in; the rest is a PRNG sample
+	var always, rest []corpus.Source
+	for _, b := range base {
+		if strings.HasPrefix(b.ID, "atom/module/") || strings.HasPrefix(b.ID, "atom/global/") || strings.HasPrefix(b.ID, "atom/md/tuples") || strings.HasPrefix(b.ID, "atom/types/alias") {
+			always = append(always, b)
+		} else {
+			rest = append(rest, b)
+		}
 	}
-	inputs = append(inputs, base...)
+	sort.Slice(always, func(i, j int) bool { return always[i].ID < always[j].ID })
+	if k := ctx.Pick(24, 120); len(rest) > k {
+		rest = rest[:k]
+	}
+	inputs = append(inputs, always...)
+	inputs = append(inputs, rest...)
 	inputs = append(inputs, corpus.StressSources(ctx.Rand("stress"), ctx.Pick(6, 60), 20, 200)...)
 	inputs = append(inputs, rejectedInputs()...)
 	procs := ctx.Pick(3, 8)
